@@ -272,9 +272,22 @@ def interleavings(na, nb):
     return sorted(out)
 
 
+def h_poolct(idx):
+    """a case of the shared dense-time online pool (vf/poolct.py)"""
+    def body(env):
+        from .. import poolct
+        outs, res = ct.run_pool_case(env, poolct.CASES[idx], check=('pure',))
+        env.observe('updates', len(outs))
+        return res
+    return body
+
+
 def obligations(tier, rng):
     quick = tier == 'quick'
     out = []
+    from .. import poolct as _pc
+    for _i, _c in enumerate(_pc.CASES):
+        out.append(ob('C11', 'poolct', 'pool-ct-pure/%d/%s/%s' % (_i, text(_c[0]), ';'.join(','.join(map(str, q)) or '-' for q in _c[2])), idx=_i, max_paths=60000, wall=900))
     bounds = [(0, 1), (1, 2), (0, 3), (2, 5)] if quick else refsem.BOUNDS_Q + [(2, 5), (0, 6)]
     f1 = refsem.f1(bounds, arith=False)
     for f in f1:
